@@ -8,8 +8,12 @@ import (
 	"fmt"
 	"math"
 	"math/big"
+	"runtime"
 	"sort"
 	"strconv"
+	"strings"
+	"sync"
+	"sync/atomic"
 	"testing"
 	"time"
 
@@ -18,6 +22,7 @@ import (
 	metav1 "k8s.io/apimachinery/pkg/apis/meta/v1"
 	"k8s.io/apimachinery/pkg/types"
 	"k8s.io/client-go/tools/cache"
+	resourceapi "k8s.io/component-helpers/resource"
 	fwktype "k8s.io/kube-scheduler/framework"
 	"k8s.io/kubernetes/pkg/scheduler/framework"
 	clocktesting "k8s.io/utils/clock/testing"
@@ -61,6 +66,7 @@ type c08Pod struct {
 	cf                [2]int64 // custom scaling factors, -1 absent
 	cSched, cInit     int64    // custom seconds, -1 absent
 	req, lim          [2]int64 // amounts placed in the pod (cpu milli, memory bytes)
+	raw               *c08Raw  // non-nil: the object is built from this raw shape and the fields above are DERIVED from it
 }
 
 // amounts of the translated resource name: a free-class pod has none.
@@ -123,6 +129,9 @@ func c08CondObj(typ corev1.PodConditionType, c c08Cond, t0 time.Time) *corev1.Po
 
 // build is a deterministic function of the tokens (OnUpdate compares Spec and Conditions with DeepEqual).
 func (p c08Pod) build(t0 time.Time) *corev1.Pod {
+	if p.raw != nil {
+		return p.buildRaw(t0)
+	}
 	pod := &corev1.Pod{ObjectMeta: metav1.ObjectMeta{Namespace: "ns", Name: "p" + strconv.Itoa(p.key), UID: types.UID("u" + strconv.Itoa(p.uid)),
 		Annotations: map[string]string{}}}
 	prio := c08Prio[p.cls][p.pv%2]
@@ -295,6 +304,8 @@ type c08Cfg struct {
 	allowCustom      bool
 	secSched, secInit int64 // -1 nil
 	prodIncSys       bool
+	glue             bool           // this case generates raw pod shapes too
+	specIDs          map[string]int // identity numbers of the raw PodSpecs seen in this case
 }
 
 func c08FactorMap(f [2]int64) map[corev1.ResourceName]int64 {
@@ -749,6 +760,9 @@ func c08GenPod(r *vRand, cfg c08Cfg, uid, nNodes int, near int64) c08Pod {
 		}
 	}
 	c08GenRes(r, &p)
+	if cfg.glue && r.Bool() {
+		c08GenRaw(r, &p, cfg.specIDs)
+	}
 	return p
 }
 
@@ -842,6 +856,7 @@ type c08Run struct {
 	shadow map[int]*c08NodeShadow
 	pool   map[int]c08Pod // last object of every pod the "API server" knows
 	busy   int            // events seen while a metric was in force and pods were assigned
+	concOrder string      // inside a concurrent segment: the observed order of completed calls
 	reach  int            // filters that reached the threshold comparison
 }
 
@@ -869,6 +884,9 @@ func (c *c08Run) shUnassign(node, uid int) {
 }
 
 func c08SpecEq(a, b c08Pod) bool {
+	if a.raw != nil || b.raw != nil { // raw shapes: the class may come from labels, only the PodSpec counts
+		return a.raw != nil && b.raw != nil && a.raw.specID == b.raw.specID && a.specNode == b.specNode
+	}
 	ar, al := a.amounts()
 	br, bl := b.amounts()
 	return a.cls == b.cls && a.pv == b.pv && a.specNode == b.specNode && ar == br && al == bl
@@ -928,6 +946,12 @@ func c08Vec2(v ResourceVector) [2]int64 {
 
 // observe every node after an event and evaluate the cache oracles
 func (c *c08Run) observe() {
+	fail := func(fpr, format string, a ...interface{}) {
+		if c.concOrder != "" { // at the barrier of a concurrent segment
+			format += " (quiescent point of a concurrent segment; completed: " + c.concOrder + "; schedule dependent: a replay may need several runs)"
+		}
+		c.h.Fail(fpr, format, a...)
+	}
 	for k := 1; k <= c.nNodes; k++ {
 		ns := c.ns(k)
 		v, ok := c.views(c.pc, k)
@@ -939,13 +963,20 @@ func (c *c08Run) observe() {
 		// a report without Status.UpdateTime: every failing cache oracle is one finding class
 		noUpd := ns.metric != nil && !ns.metric.hasUpd
 		fp := func(base string) string {
+			if c.concOrder != "" {
+				return "C08:conc:quiescent-drift"
+			}
 			if noUpd {
 				return "C08:cache-drift:report-without-update-time"
 			}
 			return base
 		}
 		if ok != (ns.metric != nil) {
-			c.h.Fail("C08:metric-presence", "node %d: cache has metric=%v, events say %v", k, ok, ns.metric != nil)
+			mp := "C08:metric-presence"
+			if c.concOrder != "" {
+				mp = "C08:conc:quiescent-drift"
+			}
+			fail(mp, "node %d: cache has metric=%v, events say %v", k, ok, ns.metric != nil)
 			continue
 		}
 		if !ok {
@@ -957,23 +988,23 @@ func (c *c08Run) observe() {
 		// (a) from-scratch formulas
 		ep, en, ef := ns.expect(c.cfg)
 		if c08Vec2(v[0]) != ep {
-			c.h.Fail(fp("C08:estimate-formula:prod"), "node %d prod estimate %v, from scratch %v", k, v[0], ep)
+			fail(fp("C08:estimate-formula:prod"), "node %d prod estimate %v, from scratch %v", k, v[0], ep)
 		}
 		if ns.metric.hasInfo && c08Vec2(v[1]) != en {
-			c.h.Fail(fp("C08:estimate-formula:node"), "node %d estimate %v, from scratch %v", k, v[1], en)
+			fail(fp("C08:estimate-formula:node"), "node %d estimate %v, from scratch %v", k, v[1], en)
 		}
 		if c08Vec2(v[2]) != ef {
-			c.h.Fail(fp("C08:estimate-formula:full"), "node %d sum of estimates %v, from scratch %v", k, v[2], ef)
+			fail(fp("C08:estimate-formula:full"), "node %d sum of estimates %v, from scratch %v", k, v[2], ef)
 		}
 		// (b) fresh cache
 		fv, fok := c.views(c.fresh(k), k)
 		if !fok {
-			c.h.Fail(fp("C08:cache-drift"), "node %d: fresh cache has no metric", k)
+			fail(fp("C08:cache-drift"), "node %d: fresh cache has no metric", k)
 			continue
 		}
 		for i := range v {
 			if c08Vec2(v[i]) != c08Vec2(fv[i]) {
-				c.h.Fail(fp("C08:cache-drift"), "node %d view %d: cache %v, fresh cache %v", k, i, v[i], fv[i])
+				fail(fp("C08:cache-drift"), "node %d view %d: cache %v, fresh cache %v", k, i, v[i], fv[i])
 				break
 			}
 		}
@@ -1170,6 +1201,891 @@ func (c *c08Run) doFilter(q c08Filter) {
 	}
 }
 
+// ---------------------------------------------------------------- raw pod shapes (glue stream)
+//
+// In a "glue" case half of the pods are generated as RAW shapes: priority-class label / Spec.Priority / QoS label /
+// Status.QOSClass, annotation TEXTS (valid, odd and malformed), 1-3 containers, 0-2 init containers (some restartable =
+// sidecars), overhead, pod-level resources.  The derived fields of c08Pod (cls, cf, cSched, cInit, req, lim) are computed
+// from the raw shape by the harness' own formulas (they feed the oracle); the op line `shape …` carries the raw shape to
+// the model, whose glue functions must derive the same values as the real helper functions do on the built object.
+
+type c08RawInit struct {
+	always bool
+	v      [2][2]int64
+}
+
+type c08Raw struct {
+	prioLabel int // 0 absent, 1..4 the four known names, 5 another text
+	hasPrio   bool
+	prio      int32
+	qosLabel  int // 0 absent, 1 LSE, 2 LSR, 3 LS, 4 BE, 5 SYSTEM, 6 another text
+	statusQos int // Status.QOSClass: 1 Guaranteed, 2 Burstable, 3 BestEffort (always set: the computed class is k8s' business)
+	labelsNil bool
+	fKind     int
+	fText     string
+	f         [2]int64
+	sKind     int
+	sText     string
+	sVal      int64
+	iKind     int
+	iText     string
+	iVal      int64
+	cs        [][2][2]int64 // per container, per resource index: {request, limit}
+	inits     []c08RawInit
+	ov        [2]int64
+	pl        [2][2]int64 // pod-level {request, limit}, -1 absent
+	specID    int
+}
+
+var c08PrioLabelText = []string{"", "koord-prod", "koord-mid", "koord-batch", "koord-free", "gold"}
+var c08QosLabelText = []string{"", "LSE", "LSR", "LS", "BE", "SYSTEM", "turbo"}
+var c08KubeQos = []corev1.PodQOSClass{"", corev1.PodQOSGuaranteed, corev1.PodQOSBurstable, corev1.PodQOSBestEffort}
+
+// the class as the statement of the priority rules reads it (label, else priority band, else QoS label, else kube QoS)
+func (w *c08Raw) class() int {
+	if w.prioLabel != 0 {
+		if w.prioLabel <= 4 {
+			return w.prioLabel
+		}
+	} else if w.hasPrio {
+		switch p := w.prio; {
+		case p >= 9000 && p <= 9999:
+			return 1
+		case p >= 7000 && p <= 7999:
+			return 2
+		case p >= 5000 && p <= 5999:
+			return 3
+		case p >= 3000 && p <= 3999:
+			return 4
+		}
+	}
+	if w.qosLabel >= 1 && w.qosLabel <= 5 && !w.labelsNil {
+		if w.qosLabel == 4 {
+			return 3
+		}
+		return 1
+	}
+	if w.statusQos == 3 {
+		return 3
+	}
+	return 1
+}
+
+// effective request / limit of one resource: containers and sidecars add up, an init container needs its own amount
+// on top of the sidecars started before it, the pod needs the larger of the two; pod-level amounts replace that;
+// overhead is added (to a limit only when there is one)
+func (w *c08Raw) amount(idx, rl int) int64 {
+	var total, side, initMax int64
+	for _, c := range w.cs {
+		total += c[idx][rl]
+	}
+	for _, ic := range w.inits {
+		v := ic.v[idx][rl]
+		if ic.always {
+			total += v
+			side += v
+			if side > initMax {
+				initMax = side
+			}
+		} else if v+side > initMax {
+			initMax = v + side
+		}
+	}
+	if initMax > total {
+		total = initMax
+	}
+	if w.pl[idx][rl] >= 0 {
+		total = w.pl[idx][rl]
+	}
+	if rl == 0 || total != 0 {
+		total += w.ov[idx]
+	}
+	return total
+}
+
+func (w *c08Raw) specKey(cls int) string {
+	return fmt.Sprint(w.hasPrio, w.prio, w.cs, w.inits, w.ov, w.pl, cls)
+}
+
+// derive fills the derived fields of p from p.raw
+func (p *c08Pod) derive(ids map[string]int) {
+	w := p.raw
+	p.cls = w.class()
+	p.cf = [2]int64{-1, -1}
+	if w.fKind == 1 {
+		p.cf = w.f
+	}
+	p.cSched, p.cInit = -1, -1
+	if w.sKind == 1 {
+		p.cSched = w.sVal
+	}
+	if w.iKind == 1 {
+		p.cInit = w.iVal
+	}
+	for i := 0; i < 2; i++ {
+		p.req[i], p.lim[i] = w.amount(i, 0), w.amount(i, 1)
+	}
+	// the resource names in the object depend on the class, so the class is part of the spec's identity
+	k := w.specKey(p.cls)
+	if _, ok := ids[k]; !ok {
+		ids[k] = len(ids) + 1
+	}
+	w.specID = ids[k]
+	p.pv = w.specID
+}
+
+func (p c08Pod) shapeToks() string {
+	w := p.raw
+	xs := []int64{int64(w.prioLabel), int64(vB(w.hasPrio)), int64(w.prio), int64(w.qosLabel), int64(w.statusQos), int64(w.specID),
+		int64(w.fKind), w.f[0], w.f[1], int64(w.sKind), w.sVal, int64(w.iKind), w.iVal, int64(len(w.cs)), int64(len(w.inits))}
+	if w.labelsNil {
+		xs[0], xs[3] = 0, 0
+	}
+	for _, c := range w.cs {
+		xs = append(xs, c[0][0], c[0][1], c[1][0], c[1][1])
+	}
+	for _, ic := range w.inits {
+		xs = append(xs, int64(vB(ic.always)), ic.v[0][0], ic.v[0][1], ic.v[1][0], ic.v[1][1])
+	}
+	xs = append(xs, w.ov[0], w.ov[1], w.pl[0][0], w.pl[0][1], w.pl[1][0], w.pl[1][1])
+	return vInts(xs)
+}
+
+func (p c08Pod) buildRaw(t0 time.Time) *corev1.Pod {
+	w := p.raw
+	pod := &corev1.Pod{ObjectMeta: metav1.ObjectMeta{Namespace: "ns", Name: "p" + strconv.Itoa(p.key), UID: types.UID("u" + strconv.Itoa(p.uid)),
+		Annotations: map[string]string{}}}
+	if !w.labelsNil {
+		pod.Labels = map[string]string{"app": "x"}
+		if w.prioLabel != 0 {
+			pod.Labels[extension.LabelPodPriorityClass] = c08PrioLabelText[w.prioLabel]
+		}
+		if w.qosLabel != 0 {
+			pod.Labels[extension.LabelPodQoS] = c08QosLabelText[w.qosLabel]
+		}
+	}
+	if w.hasPrio {
+		v := w.prio
+		pod.Spec.Priority = &v
+	}
+	pod.Status.QOSClass = c08KubeQos[w.statusQos]
+	pod.Spec.NodeName = c08NodeName(p.specNode)
+	pod.Status.Phase = corev1.PodRunning
+	if p.term {
+		pod.Status.Phase = []corev1.PodPhase{corev1.PodFailed, corev1.PodSucceeded}[p.uid%2]
+	}
+	if p.rsv {
+		pod.Annotations[reservationutil.AnnotationReservePod] = "true"
+	}
+	if c := c08CondObj(corev1.PodScheduled, p.sched, t0); c != nil {
+		pod.Status.Conditions = append(pod.Status.Conditions, *c)
+	}
+	if c := c08CondObj(corev1.PodInitialized, p.init, t0); c != nil {
+		pod.Status.Conditions = append(pod.Status.Conditions, *c)
+	}
+	if w.fKind != 0 || w.fText != "" {
+		pod.Annotations[extension.AnnotationCustomEstimatedScalingFactors] = w.fText
+	}
+	if w.sKind != 0 || w.sText != "" {
+		pod.Annotations[extension.AnnotationCustomEstimatedSecondsAfterPodScheduled] = w.sText
+	}
+	if w.iKind != 0 || w.iText != "" {
+		pod.Annotations[extension.AnnotationCustomEstimatedSecondsAfterInitialized] = w.iText
+	}
+	rr := func(v [2][2]int64) corev1.ResourceRequirements {
+		var out corev1.ResourceRequirements
+		for idx := 0; idx < 2; idx++ {
+			if p.cls == 4 {
+				continue // no translated name
+			}
+			if v[idx][0] > 0 {
+				if out.Requests == nil {
+					out.Requests = corev1.ResourceList{}
+				}
+				out.Requests[c08ResName(p.cls, idx)] = c08Qty(p.cls, idx, v[idx][0])
+			}
+			if v[idx][1] > 0 {
+				if out.Limits == nil {
+					out.Limits = corev1.ResourceList{}
+				}
+				out.Limits[c08ResName(p.cls, idx)] = c08Qty(p.cls, idx, v[idx][1])
+			}
+		}
+		return out
+	}
+	for i, cv := range w.cs {
+		pod.Spec.Containers = append(pod.Spec.Containers, corev1.Container{Name: "r" + strconv.Itoa(i), Resources: rr(cv)})
+	}
+	for i, ic := range w.inits {
+		c := corev1.Container{Name: "i" + strconv.Itoa(i), Resources: rr(ic.v)}
+		if ic.always {
+			al := corev1.ContainerRestartPolicyAlways
+			c.RestartPolicy = &al
+		}
+		pod.Spec.InitContainers = append(pod.Spec.InitContainers, c)
+	}
+	if (w.ov[0] > 0 || w.ov[1] > 0) && p.cls != 4 {
+		pod.Spec.Overhead = corev1.ResourceList{}
+		for idx := 0; idx < 2; idx++ {
+			if w.ov[idx] > 0 {
+				pod.Spec.Overhead[c08ResName(p.cls, idx)] = c08Qty(p.cls, idx, w.ov[idx])
+			}
+		}
+	}
+	if p.cls == 1 {
+		for idx := 0; idx < 2; idx++ {
+			for rl := 0; rl < 2; rl++ {
+				if w.pl[idx][rl] < 0 {
+					continue
+				}
+				if pod.Spec.Resources == nil {
+					pod.Spec.Resources = &corev1.ResourceRequirements{}
+				}
+				q := c08Qty(1, idx, w.pl[idx][rl])
+				if rl == 0 {
+					if pod.Spec.Resources.Requests == nil {
+						pod.Spec.Resources.Requests = corev1.ResourceList{}
+					}
+					pod.Spec.Resources.Requests[c08ResName(1, idx)] = q
+				} else {
+					if pod.Spec.Resources.Limits == nil {
+						pod.Spec.Resources.Limits = corev1.ResourceList{}
+					}
+					pod.Spec.Resources.Limits[c08ResName(1, idx)] = q
+				}
+			}
+		}
+	}
+	return pod
+}
+
+// what the REAL helper functions read from the built object, in the format of the model's `shape` line
+func c08ShapeObs(obj *corev1.Pod) string {
+	cls := map[extension.PriorityClass]int{extension.PriorityProd: 1, extension.PriorityMid: 2, extension.PriorityBatch: 3, extension.PriorityFree: 4}[extension.GetPodPriorityClassWithDefault(obj)]
+	cf := [2]int64{-1, -1}
+	if m := extension.GetCustomEstimatedScalingFactors(obj); m != nil {
+		if v, ok := m[corev1.ResourceCPU]; ok {
+			cf[0] = v
+		}
+		if v, ok := m[corev1.ResourceMemory]; ok {
+			cf[1] = v
+		}
+	}
+	reqs, lims := resourceapi.PodRequests(obj, resourceapi.PodResourcesOptions{}), resourceapi.PodLimits(obj, resourceapi.PodResourcesOptions{})
+	var a [4]int64
+	for idx := 0; idx < 2 && cls >= 1 && cls <= 3; idx++ {
+		name := extension.TranslateResourceNameByPriorityClass(extension.GetPodPriorityClassWithDefault(obj), []corev1.ResourceName{corev1.ResourceCPU, corev1.ResourceMemory}[idx])
+		rq, lq := reqs[name], lims[name]
+		if name == corev1.ResourceCPU {
+			a[2*idx], a[2*idx+1] = rq.MilliValue(), lq.MilliValue()
+		} else {
+			a[2*idx], a[2*idx+1] = rq.Value(), lq.Value()
+		}
+	}
+	return fmt.Sprintf("shape %d %d %d %d %d %d %d %d %d", cls, cf[0], cf[1], extension.GetCustomEstimatedSecondsAfterPodScheduled(obj),
+		extension.GetCustomEstimatedSecondsAfterInitialized(obj), a[0], a[1], a[2], a[3])
+}
+
+// emitShape announces the raw shape of the pod of the next pod-carrying op and checks the glue on the built object
+func (c *c08Run) emitShape(p c08Pod, obj *corev1.Pod) {
+	if p.raw == nil {
+		return
+	}
+	c.h.Op("shape %s", p.shapeToks())
+	got := c08ShapeObs(obj)
+	c.h.Obs("%s", got)
+	c.h.Tag(fmt.Sprintf("glue:class=%d:via=%s", p.cls, p.raw.via()))
+	c.h.Tag(fmt.Sprintf("glue:factors-kind=%d", p.raw.fKind))
+	req, lim := p.amounts()
+	want := fmt.Sprintf("shape %d %d %d %d %d %d %d %d %d", p.cls, p.cf[0], p.cf[1], p.cSched, p.cInit, req[0], lim[0], req[1], lim[1])
+	if got != want {
+		c.h.Fail("C08:glue-shape", "the helper functions read [%s] from the pod, its shape says [%s]", got, want)
+	}
+}
+
+func (w *c08Raw) via() string {
+	switch {
+	case w.prioLabel >= 1 && w.prioLabel <= 4 && !w.labelsNil:
+		return "label"
+	case (w.prioLabel == 0 || w.labelsNil) && w.hasPrio && w.prio >= 3000 && w.prio <= 9999 && (w.prio%2000) >= 1000:
+		return "priority"
+	case w.qosLabel >= 1 && w.qosLabel <= 5 && !w.labelsNil:
+		return "qos-label"
+	}
+	return "kube-qos"
+}
+
+func c08GenAmt(r *vRand, idx int) [2]int64 {
+	var v [2]int64
+	gen := c08CPU
+	if idx == 1 {
+		gen = c08Mem
+	}
+	if !r.Chance(1, 4) {
+		v[0] = gen(r)
+	}
+	switch r.Intn(4) {
+	case 0:
+	case 1:
+		v[1] = v[0]
+	case 2:
+		v[1] = v[0] * 2
+	default:
+		v[1] = gen(r)
+	}
+	return v
+}
+
+func c08GenFactorsText(r *vRand, w *c08Raw) {
+	w.f = [2]int64{-1, -1}
+	switch r.Intn(12) {
+	case 0, 1, 2:
+		w.fKind, w.fText = 0, ""
+	case 3:
+		w.fKind, w.fText = 1, r.pickS([]string{"{}", "null", `{"nvidia.com/gpu": 50}`, ` { } `})
+	case 4:
+		w.fKind, w.fText = 2, r.pickS([]string{"{not json", `{"cpu": "80"}`, `{"cpu": 1.5}`, `[80, 70]`, `{"cpu": 9223372036854775808}`, `{"cpu": 80,}`, `80`, `"x"`})
+	default:
+		w.fKind = 1
+		m := map[string]int64{}
+		if r.Chance(3, 4) {
+			w.f[0] = c08Factor(r)
+			if w.f[0] < 0 {
+				w.f[0] = 0
+			}
+			m["cpu"] = w.f[0]
+		}
+		if r.Chance(3, 4) {
+			w.f[1] = c08Factor(r)
+			if w.f[1] < 0 {
+				w.f[1] = 0
+			}
+			m["memory"] = w.f[1]
+		}
+		if r.Chance(1, 4) {
+			m["example.com/foo"] = 33
+		}
+		b, _ := json.Marshal(m)
+		w.fText = string(b)
+	}
+}
+
+func c08GenSecsText(r *vRand) (kind int, text string, val int64) {
+	switch r.Intn(8) {
+	case 0, 1, 2:
+		return 0, "", 0
+	case 3:
+		return 2, r.pickS([]string{"abc", "1.5", " 5", "5s", "99999999999999999999", "0x10", "1e2"}), 0
+	case 4:
+		v := r.Pick([]int64{-1, -30, 0})
+		return 1, strconv.FormatInt(v, 10), v
+	case 5:
+		v := r.Pick([]int64{10, 30, 300})
+		return 1, "+" + strconv.FormatInt(v, 10), v
+	default:
+		v := r.Pick([]int64{0, 10, 30, 100, 300})
+		return 1, strconv.FormatInt(v, 10), v
+	}
+}
+
+func (r *vRand) pickS(xs []string) string { return xs[r.Intn(len(xs))] }
+
+func c08GenClassShape(r *vRand, w *c08Raw) {
+	w.prioLabel, w.hasPrio, w.prio, w.qosLabel, w.labelsNil = 0, false, 0, 0, false
+	w.statusQos = r.Range(1, 3)
+	bands := []int32{9500, 9000, 9999, 7500, 5000, 5999, 3500}
+	switch r.Intn(6) {
+	case 0, 1: // by Spec.Priority
+		w.hasPrio, w.prio = true, bands[r.Intn(len(bands))]
+	case 2: // by label; Spec.Priority says something else or nothing
+		w.prioLabel = r.Range(1, 4)
+		if r.Bool() {
+			w.hasPrio, w.prio = true, bands[r.Intn(len(bands))]
+		}
+	case 3: // unknown label text hides an in-band priority
+		w.prioLabel = 5
+		w.hasPrio, w.prio = true, bands[r.Intn(len(bands))]
+	default: // no usable priority: nil, 0, between the bands, above them
+		if r.Chance(2, 3) {
+			w.hasPrio = true
+			w.prio = int32(r.Pick([]int64{0, 100, 2999, 4000, 6500, 8999, 10000, 2000000000, -1}))
+		}
+		w.labelsNil = r.Chance(1, 5)
+	}
+	if r.Chance(1, 2) {
+		w.qosLabel = r.Range(1, 6)
+	}
+}
+
+func c08GenRaw(r *vRand, p *c08Pod, ids map[string]int) {
+	w := &c08Raw{pl: [2][2]int64{{-1, -1}, {-1, -1}}}
+	c08GenClassShape(r, w)
+	c08GenFactorsText(r, w)
+	w.sKind, w.sText, w.sVal = c08GenSecsText(r)
+	w.iKind, w.iText, w.iVal = c08GenSecsText(r)
+	for i, n := 0, r.Range(1, 3); i < n; i++ {
+		w.cs = append(w.cs, [2][2]int64{c08GenAmt(r, 0), c08GenAmt(r, 1)})
+	}
+	if r.Chance(1, 2) {
+		for i, n := 0, r.Range(1, 3); i < n; i++ {
+			w.inits = append(w.inits, c08RawInit{always: r.Chance(1, 3), v: [2][2]int64{c08GenAmt(r, 0), c08GenAmt(r, 1)}})
+		}
+	}
+	if r.Chance(1, 4) {
+		w.ov = [2]int64{int64(r.Range(0, 4)) * 50, int64(r.Range(0, 4)) * 16 * c08MiB}
+	}
+	if w.class() == 1 && r.Chance(1, 5) {
+		for idx := 0; idx < 2; idx++ {
+			if r.Bool() {
+				w.pl[idx][0] = c08GenAmt(r, idx)[0]
+			}
+			if r.Bool() {
+				w.pl[idx][1] = c08GenAmt(r, idx)[1]
+			}
+		}
+	}
+	p.raw = w
+	p.derive(ids)
+}
+
+// a change of the raw shape for an informer update: metadata only (labels / annotation texts) or in the PodSpec
+func c08MutRaw(r *vRand, p *c08Pod, ids map[string]int) {
+	w := *p.raw // copy; slices are replaced, never written through
+	switch r.Intn(6) {
+	case 0: // labels only: the class may change while the spec stays
+		old := w
+		c08GenClassShape(r, &w)
+		w.hasPrio, w.prio = old.hasPrio, old.prio
+	case 1:
+		c08GenFactorsText(r, &w)
+	case 2:
+		w.sKind, w.sText, w.sVal = c08GenSecsText(r)
+		w.iKind, w.iText, w.iVal = c08GenSecsText(r)
+	case 3: // a container's resources
+		cs := append([][2][2]int64{}, w.cs...)
+		cs[r.Intn(len(cs))] = [2][2]int64{c08GenAmt(r, 0), c08GenAmt(r, 1)}
+		w.cs = cs
+	case 4: // Spec.Priority
+		w.hasPrio, w.prio = true, []int32{9500, 9100, 7500, 5500, 3500, 0}[r.Intn(6)]
+	default: // an init container more / less
+		if len(w.inits) > 0 && r.Bool() {
+			w.inits = append([]c08RawInit{}, w.inits[:len(w.inits)-1]...)
+		} else {
+			w.inits = append(append([]c08RawInit{}, w.inits...), c08RawInit{always: r.Bool(), v: [2][2]int64{c08GenAmt(r, 0), c08GenAmt(r, 1)}})
+		}
+	}
+	if w.class() != 1 {
+		w.pl = [2][2]int64{{-1, -1}, {-1, -1}}
+	}
+	p.raw = &w
+	p.derive(ids)
+}
+
+// ---------------------------------------------------------------- concurrency streams
+//
+// (1) race pairs: on a node of its own ("race") the two single-cleanup races of the design are run k times, both
+//     goroutines released from a spin barrier: {NodeMetric only} assign || DeleteNodeMetric, and {one pod only}
+//     AddOrUpdateNodeMetric || pod delete.  Whatever the interleaving, the added object must be in the cache when
+//     both calls have returned (Lean: Conc.no_event_lost); the trial ends with the entry cleaned up again, so the
+//     model's cache is not changed by the op (`race <k>` -> `race 0 0`).
+// (2) concurrent segments inside a history: goroutine P replays pod events, goroutine M replays NodeMetric events of
+//     the same node, goroutine F calls Filter / Get; at the barrier (all returned) the usual observation + oracles run.
+//     Pod events and metric events act on disjoint parts of a nodeInfo and the sums are a function of (report, pods)
+//     (Lean: cache_eq_from_report), so the quiescent state does not depend on the interleaving: the model replays
+//     "P's events, then M's events" between `cbegin` and `cend` and observes once.
+//     At most ONE delete-type event per segment: two cleanups of one entry during one add-type call exhaust its two
+//     attempts (Lean: Conc.two_cleanups_counterexample) — documented limit of the source ("we only try 2 times").
+
+func c08Spin(cond func() bool) {
+	for i := 0; !cond(); i++ {
+		if i&1023 == 1023 {
+			runtime.Gosched()
+		}
+	}
+}
+
+// racePairs returns the number of lost pods / lost reports and a description of the first loss.
+func (c *c08Run) racePairs(k int) (lostPod, lostMetric int, what string) {
+	const node = "race"
+	pod := c08Pod{uid: 90, key: 90, cls: 1, cf: [2]int64{-1, -1}, cSched: -1, cInit: -1, req: [2]int64{500, 64 * c08MiB}}.build(c.t0)
+	pod.Spec.NodeName = node
+	nm := &slov1alpha1.NodeMetric{ObjectMeta: metav1.ObjectMeta{Name: node}}
+	nm.Status.UpdateTime = &metav1.Time{Time: c.t0}
+	nm.Status.NodeMetric = &slov1alpha1.NodeMetricInfo{}
+	mh := c.pc.NodeMetricHandler()
+	var phase, doneA, doneB, seq atomic.Int64
+	var tickA, tickB int64
+	var kind atomic.Int64
+	var wg sync.WaitGroup
+	var panics atomic.Int64
+	worker := func(done *atomic.Int64, tick *int64, f func(kind int64)) {
+		defer wg.Done()
+		for t := int64(1); t <= int64(k); t++ {
+			c08Spin(func() bool { return phase.Load() == t })
+			func() {
+				defer func() {
+					if recover() != nil {
+						panics.Add(1)
+					}
+				}()
+				f(kind.Load())
+			}()
+			*tick = seq.Add(1)
+			done.Store(t)
+		}
+	}
+	wg.Add(2)
+	go worker(&doneA, &tickA, func(kd int64) { // the add-type call
+		if kd == 0 {
+			c.pc.OnAdd(pod, false)
+		} else {
+			mh.OnAdd(nm, false)
+		}
+	})
+	go worker(&doneB, &tickB, func(kd int64) { // the delete-type call that empties the entry
+		if kd == 0 {
+			mh.OnDelete(nm)
+		} else {
+			c.pc.OnDelete(pod)
+		}
+	})
+	for t := int64(1); t <= int64(k); t++ {
+		kd := t & 1
+		if kd == 0 {
+			c.pc.AddOrUpdateNodeMetric(nm)
+		} else {
+			c.pc.assign(node, pod)
+		}
+		kind.Store(kd)
+		phase.Store(t)
+		c08Spin(func() bool { return doneA.Load() == t && doneB.Load() == t })
+		order := "add-type call returned first"
+		if tickB < tickA {
+			order = "delete-type call returned first"
+		}
+		if kd == 0 {
+			if c.pc.getPodAssignInfo(node, pod) == nil {
+				lostPod++
+				if what == "" {
+					what = fmt.Sprintf("trial %d: {report only} OnAdd(pod) || NodeMetric OnDelete, %s: the pod is in no nodeInfo afterwards", t, order)
+				}
+			}
+		} else {
+			if ni, ok := c.pc.getNodeInfo(node); !ok || ni.nodeMetric == nil {
+				lostMetric++
+				if what == "" {
+					what = fmt.Sprintf("trial %d: {one pod only} NodeMetric OnAdd || pod OnDelete, %s: the report is not in force afterwards", t, order)
+				}
+			}
+		}
+		c.pc.unAssign(node, pod)
+		c.pc.DeleteNodeMetric(node)
+	}
+	wg.Wait()
+	if _, ok := c.pc.getNodeInfo(node); ok && what == "" {
+		what = "the emptied entry was not removed from the cache"
+		lostMetric++
+	}
+	if panics.Load() != 0 && what == "" {
+		what = "a handler panicked"
+		lostPod++
+	}
+	return
+}
+
+func (c *c08Run) doRace(k int) {
+	h := c.h
+	h.Op("race %d", k)
+	h.Tag("op:race")
+	lp, lm, what := c.racePairs(k)
+	h.Obs("race %d %d", lp, lm)
+	if lp+lm > 0 {
+		h.Fail("C08:conc:event-lost-in-cleanup-race", "%d of %d racing pairs lost the pod, %d lost the report; %s "+
+			"(schedule dependent: a replay may need several runs)", lp, k, lm, what)
+	}
+}
+
+type c08ConcEv struct {
+	op     string
+	run    func()
+	shadow func()
+	ticket int64
+}
+
+// shadow semantics of an informer update (the same reading as in the sequential stream)
+func (c *c08Run) shUpdate(oldNode int, p c08Pod, obj *corev1.Pod, now int64) {
+	if oldNode != 0 && oldNode != p.specNode {
+		c.shUnassign(oldNode, p.uid)
+	}
+	if p.specNode != 0 {
+		cur, cached := c.ns(p.specNode).pods[p.uid]
+		switch {
+		case !cached:
+			c.shAssign(p.specNode, p, obj, now)
+		case p.term:
+			c.shUnassign(p.specNode, p.uid)
+		case !c08SpecEq(p, cur.pod) || p.sched != cur.pod.sched || p.init != cur.pod.init:
+			c.shAssign(p.specNode, p, obj, now)
+		}
+	}
+	c.pool[p.uid] = p
+}
+
+// one concurrent segment on node `node`
+func (c *c08Run) doSegment(node, nUID int, near, now int64) {
+	h, r := c.h, c.r
+	mh := c.pc.NodeMetricHandler()
+	var pEvs, mEvs []*c08ConcEv
+	deletes := 0
+	// a working copy of "where is each pod" so that the generated events make sense in sequence
+	onNode := map[int]bool{}
+	for uid := range c.ns(node).pods {
+		onNode[uid] = true
+	}
+	pool := map[int]c08Pod{}
+	for k, v := range c.pool {
+		pool[k] = v
+	}
+	nP := r.Range(1, 4)
+	for i := 0; i < nP; i++ {
+		uid := r.Range(1, nUID)
+		kind := r.Intn(10)
+		if kind >= 7 && (deletes > 0 || !onNode[uid]) {
+			kind = r.Intn(7)
+		}
+		switch {
+		case kind < 3: // informer add on this node
+			p := c08GenPod(r, c.cfg, uid, c.nNodes, near)
+			p.specNode, p.term, p.rsv = node, false, false
+			obj := p.build(c.t0)
+			inInit := r.Bool()
+			pEvs = append(pEvs, &c08ConcEv{op: fmt.Sprintf("add %d %s", now, p.toks()),
+				run:    func() { c.pc.OnAdd(obj, inInit) },
+				shadow: func() { c.shAssign(p.specNode, p, obj, now); c.pool[p.uid] = p }})
+			c.checkFloat(p)
+			pool[uid], onNode[uid] = p, true
+		case kind < 5: // Reserve on this node
+			p := c08GenPod(r, c.cfg, uid, c.nNodes, near)
+			if old, ok := pool[uid]; ok && r.Bool() {
+				p = old
+			}
+			p.specNode, p.term, p.rsv = 0, false, false
+			obj := p.build(c.t0)
+			pEvs = append(pEvs, &c08ConcEv{op: fmt.Sprintf("rsv %d %d %s", node, now, p.toks()),
+				run:    func() { c.pl.Reserve(context.TODO(), framework.NewCycleState(), obj, c08NodeName(node)) },
+				shadow: func() { c.shAssign(node, p, obj, now); c.pool[p.uid] = p }})
+			c.checkFloat(p)
+			pool[uid], onNode[uid] = p, true
+		case kind < 7: // informer update in place (spec / conditions / nothing)
+			old, known := pool[uid]
+			p := old
+			if !known {
+				p = c08GenPod(r, c.cfg, uid, c.nNodes, near)
+				p.term, p.rsv = false, false
+				old = p
+			}
+			p.specNode = node
+			if p.term { // a terminal pod stays terminal here (that would be a delete-type event)
+				p.term = false
+			}
+			switch r.Intn(4) {
+			case 0:
+				c08GenRes(r, &p)
+			case 1:
+				p.sched = c08Cond{k: 2, t: now}
+			case 2:
+				p.cls = []int{1, 1, 2, 3, 4}[r.Intn(5)]
+			}
+			oldNode := old.specNode
+			if oldNode != 0 && oldNode != node {
+				oldNode = node // no move between nodes inside a segment (that would be a delete-type event on the old node)
+			}
+			o := old
+			o.specNode = oldNode
+			var oldObj interface{} = o.build(c.t0)
+			obj := p.build(c.t0)
+			pEvs = append(pEvs, &c08ConcEv{op: fmt.Sprintf("upd %d %d %s", oldNode, now, p.toks()),
+				run:    func() { c.pc.OnUpdate(oldObj, obj) },
+				shadow: func() { c.shUpdate(oldNode, p, obj, now) }})
+			c.checkFloat(p)
+			pool[uid], onNode[uid] = p, true
+		default: // the one delete-type pod event: informer delete / Unreserve / terminal update
+			deletes++
+			p := pool[uid]
+			if p.uid == 0 {
+				p = c08GenPod(r, c.cfg, uid, c.nNodes, near)
+			}
+			p.specNode = node
+			switch r.Intn(3) {
+			case 0:
+				obj := p.build(c.t0)
+				tomb := r.Bool()
+				pEvs = append(pEvs, &c08ConcEv{op: fmt.Sprintf("del %d %d", node, uid),
+					run: func() {
+						if tomb {
+							c.pc.OnDelete(cache.DeletedFinalStateUnknown{Key: "ns/" + obj.Name, Obj: obj})
+						} else {
+							c.pc.OnDelete(obj)
+						}
+					},
+					shadow: func() { c.shUnassign(node, uid); delete(c.pool, uid) }})
+				delete(pool, uid)
+			case 1:
+				obj := p.build(c.t0)
+				pEvs = append(pEvs, &c08ConcEv{op: fmt.Sprintf("unrsv %d %d", node, uid),
+					run:    func() { c.pl.Unreserve(context.TODO(), framework.NewCycleState(), obj, c08NodeName(node)) },
+					shadow: func() { c.shUnassign(node, uid) }})
+			default:
+				o := p
+				p.term = true
+				var oldObj interface{} = o.build(c.t0)
+				obj := p.build(c.t0)
+				pEvs = append(pEvs, &c08ConcEv{op: fmt.Sprintf("upd %d %d %s", node, now, p.toks()),
+					run:    func() { c.pc.OnUpdate(oldObj, obj) },
+					shadow: func() { c.shUpdate(node, p, obj, now) }})
+				pool[uid] = p
+			}
+			delete(onNode, uid)
+		}
+	}
+	nM := r.Range(1, 3)
+	for i := 0; i < nM; i++ {
+		if deletes == 0 && r.Chance(1, 3) {
+			deletes++
+			obj := &slov1alpha1.NodeMetric{ObjectMeta: metav1.ObjectMeta{Name: c08NodeName(node)}}
+			tomb := r.Bool()
+			mEvs = append(mEvs, &c08ConcEv{op: fmt.Sprintf("delmetric %d", node),
+				run: func() {
+					if tomb {
+						mh.OnDelete(cache.DeletedFinalStateUnknown{Key: obj.Name, Obj: obj})
+					} else {
+						mh.OnDelete(obj)
+					}
+				},
+				shadow: func() { c.ns(node).metric, c.ns(node).metricObj = nil, nil }})
+			continue
+		}
+		keys := []int{}
+		for k := 1; k <= nUID; k++ {
+			keys = append(keys, k)
+		}
+		m := c08GenMetric(r, near, keys)
+		obj := m.build(node, c.t0, r)
+		viaUpdate := r.Bool()
+		mEvs = append(mEvs, &c08ConcEv{op: fmt.Sprintf("metric %d %s", node, m.toks()),
+			run: func() {
+				if viaUpdate {
+					mh.OnUpdate(nil, obj)
+				} else {
+					mh.OnAdd(obj, false)
+				}
+			},
+			shadow: func() { c.ns(node).metric, c.ns(node).metricObj = m, obj }})
+	}
+	// reader goroutine: Filter and Get on the same node, prepared up front
+	type rd struct{ run func() int }
+	var reads []rd
+	for i, n := 0, r.Range(2, 5); i < n; i++ {
+		if r.Chance(1, 3) {
+			prod, typ, dur := r.Bool(), c08AggTypes[r.Range(0, 3)], time.Duration(r.Pick([]int64{0, 300, 900}))*time.Second
+			reads = append(reads, rd{func() int {
+				_, est, _, err := c.pc.GetNodeMetricAndEstimatedOfExisting(c08NodeName(node), prod, metav1.Duration{Duration: dur}, typ, false)
+				if err == nil && len(est) != 2 {
+					return 9
+				}
+				return 0
+			}})
+			continue
+		}
+		q := c.genFilter()
+		q.node, q.hasNode = node, true
+		pl, pod, ni, state := c.buildFilter(q)
+		reads = append(reads, rd{func() int { return c08Verdict(pl.Filter(context.TODO(), state, pod, ni), c.vec) }})
+	}
+
+	h.Op("cbegin")
+	for _, e := range pEvs {
+		h.Op("%s", e.op)
+	}
+	for _, e := range mEvs {
+		h.Op("%s", e.op)
+	}
+	h.Op("cend")
+	h.Tag("op:segment")
+	h.Tag(fmt.Sprintf("segment:deletes=%d", deletes))
+
+	var gate, seq, panics, badRead atomic.Int64
+	var wg sync.WaitGroup
+	runAll := func(evs []*c08ConcEv) {
+		defer wg.Done()
+		c08Spin(func() bool { return gate.Load() == 1 })
+		for _, e := range evs {
+			func() {
+				defer func() {
+					if recover() != nil {
+						panics.Add(1)
+					}
+				}()
+				e.run()
+			}()
+			e.ticket = seq.Add(1)
+		}
+	}
+	wg.Add(3)
+	go runAll(pEvs)
+	go runAll(mEvs)
+	go func() {
+		defer wg.Done()
+		c08Spin(func() bool { return gate.Load() == 1 })
+		for _, rdr := range reads {
+			func() {
+				defer func() {
+					if recover() != nil {
+						panics.Add(1)
+					}
+				}()
+				if v := rdr.run(); v > 3 {
+					badRead.Add(1)
+				}
+			}()
+		}
+	}()
+	gate.Store(1)
+	wg.Wait()
+	for _, e := range pEvs {
+		e.shadow()
+	}
+	for _, e := range mEvs {
+		e.shadow()
+	}
+	// the observed order of completed calls, for the replay record
+	all := append(append([]*c08ConcEv{}, pEvs...), mEvs...)
+	sort.Slice(all, func(i, j int) bool { return all[i].ticket < all[j].ticket })
+	names := make([]string, len(all))
+	for i, e := range all {
+		names[i] = strings.Join(strings.Fields(e.op)[:2], " ")
+	}
+	c.concOrder = strings.Join(names, "; ")
+	if panics.Load() != 0 {
+		h.Fail("C08:conc:panic", "a handler or Filter panicked in a concurrent segment (completed: %s)", c.concOrder)
+	}
+	if badRead.Load() != 0 {
+		h.Fail("C08:conc:reader", "Filter / Get returned an impossible result during a concurrent segment (completed: %s)", c.concOrder)
+	}
+	// lost events, named before the sums are compared
+	ns := c.ns(node)
+	if ni, ok := c.pc.getNodeInfo(c08NodeName(node)); ns.metric != nil && (!ok || func() bool { ni.RLock(); defer ni.RUnlock(); return ni.nodeMetric == nil }()) {
+		h.Fail("C08:conc:event-lost-in-cleanup-race", "node %d: the NodeMetric added in the segment is not in force at the barrier (completed: %s; schedule dependent: a replay may need several runs)", node, c.concOrder)
+	}
+	for uid, sp := range ns.pods {
+		if c.pc.getPodAssignInfo(c08NodeName(node), sp.obj) == nil {
+			h.Fail("C08:conc:event-lost-in-cleanup-race", "node %d: pod %d assigned in the segment is not in the cache at the barrier (completed: %s; schedule dependent: a replay may need several runs)", node, uid, c.concOrder)
+		}
+	}
+	c.observe()
+	c.concOrder = ""
+}
+
 func (c *c08Run) genFilter() c08Filter {
 	r := c.r
 	q := c08Filter{node: r.Range(1, c.nNodes), hasNode: !r.Chance(1, 40), daemon: r.Chance(1, 20),
@@ -1307,6 +2223,15 @@ func TestVerifC08(t *testing.T) {
 		}
 		nUID := r.Range(2, 6)
 		near := c08Time(r)
+		conc := idx%8 == 7 // every 8th case: concurrency streams (race pairs + concurrent segments inside the history)
+		if conc {
+			h.Tag("case:concurrent")
+			k := 300
+			if h.OnlyCase >= 0 {
+				k = 100000 // replay of one case: enough pairs to meet a narrow window again
+			}
+			c.doRace(k)
+		}
 		for s := 0; s < steps; s++ {
 			now := c08Time(r)
 			if r.Chance(1, 2) {
@@ -1315,6 +2240,10 @@ func TestVerifC08(t *testing.T) {
 			c.setClock(now)
 			panicked := false
 			kind := r.Intn(100)
+			if conc && r.Chance(1, 3) {
+				c.doSegment(r.Range(1, c.nNodes), nUID, near, now)
+				continue
+			}
 			switch {
 			case kind < 18: // node metric add/update
 				node := r.Range(1, c.nNodes)
